@@ -118,6 +118,7 @@ func runC10(cases string, res *Result) {
 	})
 	// last: a rendering that does not end leaves a goroutine behind; the results so far are complete
 	c10ParentInsideConstructs(res)
+	c10BlocksUnderLiteralConditions(res)
 	c10IncludedChains(res)
 }
 
@@ -237,6 +238,53 @@ func c10ParentInsideConstructs(res *Result) {
 					res.add(Finding{Kind: "oracle", Where: "c10-parent-inside/" + w.name + "/" + tc.tpl, Case: c, Expected: tc.want, Observed: got,
 						Detail: "parent() inside " + w.name + " of an overriding block does not yield what the parent's definition renders (" + p + ")"})
 				}
+			}
+		}
+	}
+}
+
+// c10BlocksUnderLiteralConditions: whether a block written inside a condition counts as a definition does not depend
+// on how the condition is spelled: under a literal (false, true, 0, ”) a template renders as under a variable of the
+// same value -- two and three levels, with parent().
+func c10BlocksUnderLiteralConditions(res *Result) {
+	const base = "[{% block a %}A0{% endblock %}|{% block b %}B0{% endblock %}]"
+	shapes := []string{
+		"{% extends 'base' %}{% if C %}{% block a %}A1{% endblock %}{% endif %}",
+		"{% extends 'base' %}{% if C %}x{% else %}{% block a %}A1{% endblock %}{% endif %}",
+		"{% extends 'base' %}{% if D %}x{% elseif C %}{% block a %}A1<{{ parent() }}>{% endblock %}{% else %}{% block b %}B1{% endblock %}{% endif %}",
+		"{% extends 'base' %}{% if C %}{% if C %}{% block a %}A1{% endblock %}{% endif %}{% endif %}{% block b %}B1{{ parent() }}{% endblock %}",
+	}
+	lits := []struct {
+		lit string
+		val interface{}
+	}{{"false", false}, {"true", true}, {"0", 0}, {"1", 1}, {"''", ""}, {"'x'", "x"}, {"not true", false}, {"1 == 2", false}}
+	for si, shape := range shapes {
+		for _, l := range lits {
+			render := func(cond string) (string, string) {
+				eng := twig.New()
+				eng.RegisterString("base", base)
+				mid := strings.ReplaceAll(strings.ReplaceAll(shape, "D", "false"), "C", cond)
+				eng.RegisterString("mid", mid)
+				eng.RegisterString("leaf", "{% extends 'mid' %}{% block a %}A2({{ parent() }}){% endblock %}")
+				o1, e1 := eng.Render("mid", map[string]interface{}{"cv": l.val})
+				o2, e2 := eng.Render("leaf", map[string]interface{}{"cv": l.val})
+				if e1 != nil {
+					o1 = "error: " + e1.Error()
+				}
+				if e2 != nil {
+					o2 = "error: " + e2.Error()
+				}
+				return o1, o2
+			}
+			res.Evaluations += 2
+			res.Hist["stream:c10-literal-conditions"]++
+			res.count(fmt.Sprint("c10-literal-conditions", si, l.lit), true)
+			lm, ll := render(l.lit)
+			vm, vl := render("cv")
+			if lm != vm || ll != vl {
+				res.add(Finding{Kind: "oracle", Where: "c10-literal-conditions", Case: Case{"stream": "c10-literal-conditions", "shape": shape, "literal": l.lit},
+					Expected: vm + " / " + vl + " (the condition written as a variable of that value)", Observed: lm + " / " + ll,
+					Detail: "a block inside a condition: with the condition written as the literal " + l.lit + " the chain resolves differently than with a variable that holds that value"})
 			}
 		}
 	}
